@@ -46,6 +46,8 @@ STMTS = [
     "for i in y:\n    def loopf():\n        return i",
     "def gen():\n    x = yield\n    return (lambda: x)",
     "z = [q for q in y if q]",
+    "def o2(c):\n    if c:\n        def in_if(a):\n            return a\n    else:\n        class InElse:\n            def m(self):\n                pass\n    try:\n        def in_try():\n            pass\n    finally:\n        pass\n    for i in c:\n        with i:\n            def in_for_with():\n                pass\n    return in_if",
+    "class P:\n    if flag:\n        def cm(self):\n            while True:\n                def deep():\n                    pass\n                break",
 ]
 CHECKERS = ["typeguard.typechecked", "beartype.beartype", None]
 
@@ -119,7 +121,7 @@ def is_added_import(n):
 
 
 ENCODED = [
-    ("utf8-plain", "S = 'abc'\ndef f(x):\n    return x\n".encode("utf-8")),
+    ("utf8-plain", "S = 'abc'\ndef f(x: int) -> 'int':\n    return x\n".encode("utf-8")),
     ("utf8-nonascii", "S = 'été'\ndef f(x):\n    return x\n".encode("utf-8")),
     ("utf8-bom", b"\xef\xbb\xbf" + "S = 'été'\ndef f(x):\n    return x\n".encode("utf-8")),
     ("latin1-cookie", "# -*- coding: latin-1 -*-\nS = 'été'\ndef f(x):\n    return x\n".encode("latin-1")),
@@ -146,9 +148,14 @@ def scenario_loader(inst, V):
                 code = loader.source_to_code(data, path)
                 ns = {}
                 exec(code, ns)
-                return ("ok", ns.get("S"), ns.get("__doc__"))
+                f = ns.get("f")
+                f = getattr(f, "__wrapped__", f)
+                # __future__ flags the module was compiled under, and its (unevaluated?) annotations
+                flags = (f.__code__.co_flags & (0x1000000 | 0x20000)) if f is not None else None
+                anns = sorted((k, repr(v)) for k, v in getattr(f, "__annotations__", {}).items())
+                return ("ok", ns.get("S"), ns.get("__doc__"), flags, anns, code.co_flags & (0x1000000 | 0x20000))
             except Exception as e:  # noqa
-                return ("EXC:" + type(e).__name__, None, None)
+                return ("EXC:" + type(e).__name__, None, None, None, None, None)
         plain = run(importlib.machinery.SourceFileLoader("m", path))
         hooked = run(_JaxtypingLoader("m", path, typechecker=Typechecker(None)))
     finally:
